@@ -889,6 +889,9 @@ class PDFFont:
         self.fontname = resolve1(descriptor.get("FontName", "unknown"))
         if isinstance(self.fontname, PSLiteral):
             self.fontname = literal_name(self.fontname)
+        elif not isinstance(self.fontname, (str, bytes)):
+            log.warning("Ignoring FontName %r because it is not a name", self.fontname)
+            self.fontname = "unknown"
         self.flags = int_value(descriptor.get("Flags", 0))
         self.ascent = num_value(descriptor.get("Ascent", 0))
         self.descent = num_value(descriptor.get("Descent", 0))
